@@ -42,6 +42,9 @@ CHECKS = {
  "C17": dict(cat="model_checking", tech="model BFS + bash trace replay with logging probe commands (call multiset vs model)",
    text="Every external command of the enumerated grammars is a probe that logs its identity and arguments and prints fixed lines (incl. candidates with blanks and TAB descriptions). For every model trace replayed in bash, COMPREPLY must follow R7 and the probe log must contain exactly the completion-phase calls the model expects (with the documented $1/$2) plus only matching-phase calls expected at the state of an earlier word.",
    note="trusted: as C01; log order is not used", ref="4/C17"),
+ "C04": dict(cat="model_checking", tech="per-shell read-back of the emitted tables (own quoting rules and index base, bash dynamic scoping modelled) + explicit-state product of the rebuilt automaton with the reference automaton",
+   text="For every enumerated grammar and each of the four emitters the table statements of the script are read back, an automaton is rebuilt from them (literal list, descriptions, transition and per-level candidate tables, command function bodies, within-word tables incl. shared shape functions) and the complete product with the reference automaton of the grammar is explored; transition and candidate tables must list the same (state, item) pairs and the registration must name the command.",
+   note="trusted: harness/src/shells.rs readers/decoders; fish/zsh/pwsh scripts are read, not executed; accepting states are not in the scripts and not compared", ref="4/C04"),
  "C05": dict(cat="exploration", tech="exhaustive bounded enumeration of trees, strings and layout deviations (print/parse round trip)",
    text="Every tree up to the node bound, every literal/description string up to the length bound and every single/double layout deviation is printed by the harness printer and parsed by Grammar::parse; the parsed tree must equal the printed one. Exhaustive within the stated bounds.",
    note="trusted: the harness printer's precedence ladder and escaper (validated by this very check: a printer bug shows up as a mismatch)", ref="4/C05"),
